@@ -35,7 +35,8 @@ def parse_at_set(n):
     return None
 
 
-def check(s):
+def check_add(s, r1="C06.1", r2="C06.2"):
+    """ReplayBuffer.add: one ring index for every field, position + 1, field / source array / parameter aligned by name."""
     P = s.prog
     b = s.builder(inline={"current_size"})
     nz = Normalizer(b)
@@ -52,9 +53,9 @@ def check(s):
             raise AnalysisError(f"{con}: result is not a functional update of self")
         upd = fields(p.ret)
         want_fields = set(FIELD_PARAM) | {"position"} if has_states else (set(FIELD_PARAM) - {"states", "next_states"}) | {"position"}
-        s.ob("C06.2", con + tag, set(upd) == want_fields, f"exactly the fields {sorted(want_fields)} are replaced", loc, key="written-fields",
+        s.ob(r2, con + tag, set(upd) == want_fields, f"exactly the fields {sorted(want_fields)} are replaced", loc, key="written-fields",
              detail=f"written: {sorted(upd)}", necessary_for="every field of a transition comes from the same insertion")
-        s.eq("C06.1", con + tag, nz, upd.get("position", NONE), s.ref(b, "self.position + 1", {"self": self_}), "position' == position + 1", loc,
+        s.eq(r1, con + tag, nz, upd.get("position", NONE), s.ref(b, "self.position + 1", {"self": self_}), "position' == position + 1", loc,
              key="position-increment", necessary_for="the buffer holds the most recent min(n, C) transitions")
         idxs = set()
         for F, pname in FIELD_PARAM.items():
@@ -72,22 +73,28 @@ def check(s):
                 if r:
                     base, idx, val = r
             ok_form = base is not None
-            s.ob("C06.1", f"{con}{tag}.{F}", ok_form, "the field is written by leaf.at[idx].set(new) on every leaf", loc, key=f"write-form-{F}",
+            s.ob(r1, f"{con}{tag}.{F}", ok_form, "the field is written by leaf.at[idx].set(new) on every leaf", loc, key=f"write-form-{F}",
                  detail=show(v, maxlen=200))
             if not ok_form:
                 continue
             idxs.add(nz.canon(idx))
-            s.ob("C06.1", f"{con}{tag}.{F}", nz.canon(idx) == idx_ref, "write index == position % size", loc, key=f"ring-index-{F}",
+            s.ob(r1, f"{con}{tag}.{F}", nz.canon(idx) == idx_ref, "write index == position % size", loc, key=f"ring-index-{F}",
                  detail=f"index {show(idx, maxlen=120)}", necessary_for="wrap-around overwrites the oldest slot")
-            s.ob("C06.2", f"{con}{tag}.{F}", base == ("attr", self_, F), f"field {F} is derived from self.{F}", loc, key=f"base-{F}",
+            s.ob(r2, f"{con}{tag}.{F}", base == ("attr", self_, F), f"field {F} is derived from self.{F}", loc, key=f"base-{F}",
                  detail=show(base, maxlen=120))
-            s.ob("C06.2", f"{con}{tag}.{F}", nz.canon(val) == ("p", pname), f"field {F} receives parameter `{pname}`", loc, key=f"value-{F}",
+            s.ob(r2, f"{con}{tag}.{F}", nz.canon(val) == ("p", pname), f"field {F} receives parameter `{pname}`", loc, key=f"value-{F}",
                  detail=f"receives {show(val, maxlen=120)}",
                  necessary_for="observation, successor observation, action, reward, done, timeout and policy states stay aligned")
-        s.ob("C06.1", con + tag, len(idxs) == 1, "all fields are written at one and the same index node", loc, key="one-index",
+        s.ob(r1, con + tag, len(idxs) == 1, "all fields are written at one and the same index node", loc, key="one-index",
              detail=f"{len(idxs)} distinct index forms")
     if seen != {True, False}:
         raise AnalysisError(f"{con}: expected the cases states present / None")
+
+
+def check(s):
+    P = s.prog
+    self_ = ("param", "self")
+    check_add(s)
     # ------------------------------------------------------------------ constructor: empty buffer of `size` slots
     bi = s.builder(inline=set())
     nzi = Normalizer(bi)
